@@ -18,7 +18,8 @@ RULE = (
     "plan i = H(seed,'C12',i): history of 2-5 runs over one SimFS cache directory; inputs repeat / overlap / re-batch / "
     "re-order earlier ones; threshold drawn from {0, values just below/equal/above confidences seen earlier, 1}; reaction "
     "column switched between two columns present in the rows; 35% of the runs killed at a byte offset of their cache "
-    "writes (fraction drawn with extra mass on 0, 1, W-1, W and 'before open'), some with ENOSPC or a lost cache file; "
+    "writes (fraction drawn with extra mass on 0, 1, W-1, W and 'before open'), some with ENOSPC, EIO (read / replace / open for write) or a lost cache file; 20% of histories end with an unchanged "
+    "repeat of an earlier fault-free run (certain cache hits) whose k-th read / replace fails with EIO; "
     "plus crash_enum plans walking the byte offsets of the cache writes of fixed runs. Non-trivial: history with >=1 "
     "cache hit or >=1 crash; distinct by (steps, crash points)."
 )
@@ -116,6 +117,15 @@ def gen_plan(base_seed, i, tier):
             if as_dicts:
                 rows = [{"reaction": r, "tag": "t%d" % (H(r) % 97), "val": (None if H(r, "v") % 3 == 0 else H(r, "v") % 11)} for r in rows]
             st["rows"] = rows
+    if "objects" not in plan and rng.random() < 0.2:
+        # a disk fault placed where state is in flight: an earlier fault-free run is repeated unchanged (its entries are hits)
+        # and the k-th read / replace of that repeat fails with EIO
+        clean = [st for st in plan["steps"] if st["op"] == "run" and not any(k in st for k in ("crash_frac", "enospc_frac", "eio"))]
+        if clean:
+            st = common.clone(rng.choice(clean))
+            st["eio"] = [rng.choice(["read", "read", "replace"]), rng.choice([0, 0, 1])]
+            st["sched_seed"] = rng.getrandbits(40)
+            plan["steps"].append(st)
     return plan
 
 
